@@ -26,6 +26,7 @@ type Parser struct {
 	Parse     func(c interface{}) (interface{}, bool)
 	Action    func(s, a int) int
 	Translate func(c int) int
+	Consts    func() map[string]int
 	Trace     func(on bool)
 	ErrAcc    func() (int, int)
 	SetHooks  func(next func(int) (int, int), rec func(int))
@@ -95,6 +96,7 @@ type JobResult struct {
 	Schedule  []int           `json:"schedule,omitempty"` // interleave: context id per step
 	Matrix    [][]int         `json:"matrix,omitempty"`
 	Trans     []int           `json:"trans,omitempty"`
+	Consts    map[string]int  `json:"consts,omitempty"`
 	Err       string          `json:"err,omitempty"`
 	ErrCode   int             `json:"err_code"`
 	AccCode   int             `json:"acc_code"`
@@ -361,6 +363,9 @@ func runJob(j *Job) *JobResult {
 	case "translate":
 		for _, c := range j.Codes {
 			r.Trans = append(r.Trans, p.Translate(c))
+		}
+		if p.Consts != nil {
+			r.Consts = p.Consts()
 		}
 	default:
 		r.Err = "unknown job kind " + j.Kind
